@@ -453,7 +453,7 @@ fn regs(d: &D, b: &mut Budget) -> String {
 /// Registers, values (popped on a clone), frames (popped on a clone; each with the registers it restores),
 /// names of the given symbols, trees at the given (label, address) pairs.
 fn snapshot(d: &D, syms: &[u64], keep: &[(String, usize)]) -> String {
-    let mut b = Budget { left: 6000 };
+    let mut b = Budget { left: 3000 };
     let r = regs(d, &mut b);
     let mut c = d.clone();
     let mut vs = vec![];
@@ -1134,7 +1134,7 @@ fn run_x(rest: &str) -> (String, String) {
 }
 
 fn main() {
-    supervised(4000, |line| {
+    supervised(10000, |line| {
         let (kind, rest) = line.split_at(1);
         let rest = rest.trim_start();
         let r = catch(|| match kind {
